@@ -187,11 +187,13 @@ def do_case(args):
             if c2['out'] == case['out'] and c2['err'] == case['err'] and c2['code'] == case['code'] \
                     and c2['files'] == case['files'] and c2.get('extra') == case.get('extra'):
                 continue
-            make_cmd(work, c2['out'], c2['err'], c2['code'], c2['files'], c2.get('extra', ()))
             if delta.get('_delete'):
-                p = os.path.join(work, delta['_delete'])
-                if os.path.exists(p):
-                    os.unlink(p)
+                # the history the property speaks of: the command ran as recorded (its output files are there, as
+                # recorded), and subsequently stops producing one of them.  The copy left by the earlier run stays
+                # where it is: removing previous outputs before the command is re-run is the generated script's job.
+                make_cmd(work, case['out'], case['err'], case['code'], case['files'], case.get('extra', ()))
+                subprocess.run(['sh', 'cmd.sh'], cwd=work, capture_output=True)
+            make_cmd(work, c2['out'], c2['err'], c2['code'], c2['files'], c2.get('extra', ()))
             w2 = dict(w, change=kind, changed_to={k: repr(v)[:80] for k, v in delta.items()})
             b.case(('change', repr(sorted(w.items())), kind, repr(delta)[:200]))
             code2, failed2, nran2, tail2 = run_script(work, script_name)
@@ -265,6 +267,14 @@ def gen_cases(tier, seed):
         ('cwd_out', ['echo "running in $(pwd)"']),
         ('host_user_err', ['echo "on $(hostname) as $(id -un)" >&2']),
     ]
+    try:
+        import socket
+        ip = socket.gethostbyname(socket.gethostname())
+        # the host's own address, alone on a line and next to the host name
+        env_lines.append(('ip_out', ['echo "listening on %s port 80"' % ip]))
+        env_lines.append(('ip_host_err', ['echo "%s is $(hostname)" >&2' % ip]))
+    except OSError:
+        pass
     for name, extra in env_lines:
         cases.append(dict(out='hello\n', err='', code=0, files={'o.txt': 'data\n'}, refs=['o.txt'],
                           script='test_env_' + name, iterations=2, extra=extra))
